@@ -79,6 +79,12 @@ theorem rescaled_zero_scale (p : Params ℝ) (hp : NonNegP p) (e0 : Emis ℝ) (h
   · rintro ⟨c, hc, rfl⟩; exact hc
   · intro h; exact ⟨0, h, rfl⟩
 
+/-- the hypothesis of `rescaled_eq` (and of the posterior theorems) holds whenever all entries are
+strictly positive: every scale factor is then positive -/
+theorem rescaled_scales_pos (p : Params ℝ) (hn : 0 < p.n) (hp : PosP p) (e0 : Emis ℝ) (he0 : PosE e0)
+    (sites : List (Site ℝ)) (hs : PosS sites) : ∀ c ∈ (rescForward p e0 sites).scales, 0 < c :=
+  rescForward_scales_pos p hn hp e0 he0 sites hs
+
 /-! ## Low-memory class -/
 
 /-- for **every** chunk size (also larger than the sequence), the low-memory class returns the
